@@ -174,7 +174,7 @@ class SimDataLoader:
 
     def __init__(self, dataset, batch_size=1, shuffle=False, sampler=None, batch_sampler=None, num_workers=0,
                  collate_fn=None, pin_memory=False, drop_last=False, worker_init_fn=None, prefetch_factor=None,
-                 generator=None, persistent_workers=False, **kw):
+                 generator=None, persistent_workers=False, in_order=True, **kw):
         assert not persistent_workers, "persistent workers are not simulated"
         self.dataset = dataset
         self.K = num_workers
@@ -182,6 +182,7 @@ class SimDataLoader:
         self.init_fn = worker_init_fn
         self.prefetch = prefetch_factor or 2
         self.generator = generator
+        self.in_order = bool(in_order)  # torch >= 2.6: False = batches are handed out as workers finish them
         if batch_sampler is None:
             if sampler is None:
                 sampler = RandomSampler(dataset, generator=generator) if shuffle else SequentialSampler(dataset)
@@ -246,7 +247,7 @@ class SimDataLoader:
                 while rcvd < send:
                     while True:
                         options = [w for w in range(self.K) if queues[w] or w in running]
-                        if rcvd in done:
+                        if (rcvd in done) if self.in_order else bool(done):
                             options = ["deliver"] + options
                         pick = chooser.choose(options)
                         if pick == "deliver":
@@ -268,7 +269,7 @@ class SimDataLoader:
                                     continue
                                 raise task.exc
                             done[bi] = task.result
-                    out = done.pop(rcvd)
+                    out = done.pop(rcvd if self.in_order else next(iter(done)))  # dicts keep completion order
                     rcvd += 1
                     put()
                     yield out
@@ -282,7 +283,7 @@ class SimDataLoader:
         while rcvd < send:
             while True:
                 options = [w for w in range(self.K) if queues[w]]
-                if rcvd in done:
+                if (rcvd in done) if self.in_order else bool(done):
                     options = ["deliver"] + options
                 pick = chooser.choose(options)
                 if pick == "deliver":
@@ -297,7 +298,7 @@ class SimDataLoader:
                         done[bi] = BatchFailure(e)
                 else:
                     done[bi] = self.workers[pick].run(idxs, cls.post_batch_probe)
-            out = done.pop(rcvd)
+            out = done.pop(rcvd if self.in_order else next(iter(done)))  # dicts keep completion order
             rcvd += 1
             put()
             yield out
